@@ -3,8 +3,52 @@ from checks import c04
 
 
 def run(chk, replay):
+    if replay and replay["scenario"].get("real_history"):
+        return real_history_phase(chk)
     c04.run_prop(chk, replay, "C03")
     if not replay:
         # the command line layer (spec/Cli.tla): every subset of taste's options typed to the real main(), API intercepted
         from harness import cli
         cli.phase(chk, "taste")
+        real_history_phase(chk)
+
+
+def real_history_phase(chk):
+    """Validations of well-formed plotfiles as a HISTORY in one process with genuine pools: absolute path, then the same relative
+    name from different working directories (checks/c03_real.py).  Every one must report good."""
+    import json
+    import os
+    import random
+    import subprocess
+    import sys
+    from checks.c02 import rand_layout
+    from harness import core, gamma
+    rng = random.Random(chk.seed + 31)
+    root = chk.tmp()
+    for run in ("run1", "run2"):
+        classes = [[rng.randint(1, 3) for _ in range(rng.randint(2, 4))] for _ in range(2)]
+        cfg_ = gamma.Config.draw(rng, ndims=3, payload="tame")
+        ap = gamma.make_ap(run, ["a", "b"], classes, [rand_layout(rng, len(c)) for c in classes], ndims=3, time=cfg_.time)
+        os.makedirs(os.path.join(root, run))
+        gamma.write_plotfile(os.path.join(root, run, "plt00020"), ap, cfg_)
+    budget = 60
+    try:
+        p = subprocess.run([sys.executable, os.path.join(os.path.dirname(os.path.abspath(__file__)), "c03_real.py"), core.REPO, root, str(budget)],
+                           stdout=subprocess.PIPE, stderr=subprocess.PIPE, text=True, timeout=600)
+        out = p.stdout
+    except subprocess.TimeoutExpired as e:
+        out = e.stdout.decode() if isinstance(e.stdout, bytes) else (e.stdout or "")
+    recs = [json.loads(ln) for ln in out.split("\n") if ln.startswith("{")]
+    if not recs:
+        raise core.MachineryError("the real-pool child of C03 produced no record")
+    for i, rec in enumerate(recs):
+        sig = "real-pool-history/%s/%s/%s" % (rec["how"], "nofail" if rec["nofail"] else "fail", "".join("1" if o else "0" for o in rec["opts"]))
+        chk.executed(sig, True)
+        chk.traces += 1
+        if rec.get("hang") or not rec.get("good"):
+            chk.violation(sig, "validation %d of a history in one process (real pools; %s path of %s/plt00020, options hdr/shape/data/coords = %r, "
+                          "nofail=%r): a well-formed plotfile %s" % (i + 1, "relative" if rec["how"] == "rel" else "absolute", rec["run"], rec["opts"],
+                                                                     rec["nofail"], "is never answered" if rec.get("hang") else
+                                                                     "is reported bad (%s)" % rec.get("exc", "evaluates false")),
+                          {"real_history": True}, klass="real-pool-history")
+            break
